@@ -12,7 +12,7 @@ impl Group for Rules {
         "c14.ruleset"
     }
     fn rule(&self) -> &'static str {
-        "RuleSet<u32>: patterns sharing prefixes (/, /*, /a*, /a/*, /a/b, /a/b*, /ab, …) added in every order up to length 3 (quick)/4 (thorough) with re-additions, random longer sequences, looked up for 10 request paths; compared with the model and an independent longest-match resolver (last rule added for a pattern wins); non-trivial = more than one pattern matches or a pattern was re-added"
+        "RuleSet<u32>: patterns sharing prefixes (/, /*, /a*, /a/*, /a/b, /a/b*, /ab, …) added in every order up to length 3 (quick)/4 (thorough) with re-additions, random longer sequences, sets of sibling patterns of one kind and length (`/v1/*` … `/v4/*`, `/p1` … `/p3`) with each one re-added, looked up for 10 request paths; compared with the model and an independent longest-match resolver (last rule added for a pattern wins); non-trivial = more than one pattern matches or a pattern was re-added"
     }
     fn generate(&self, ctx: &Ctx, rng: &mut Rng) -> Vec<String> {
         let mut v = vec![format!("c14.ruleset [{}:1,{}:5,{}:6,{}:7,{}:8] {}", hex(b"/a/*"), hex(b"/*"), hex(b"/a/*"), hex(b"/a/b"), hex(b"/a/*"), hex(b"/a/x"))];
@@ -41,6 +41,22 @@ impl Group for Rules {
             let k = rng.range(1, 9);
             let adds = list((0..k).map(|i| format!("{}:{}", hex(rng.pick(&PATS).as_bytes()), i + 1)));
             v.push(format!("c14.ruleset {adds} {}", hex(rng.pick(&URIS).as_bytes())));
+        }
+        // siblings: several patterns of the same kind and the same length (the order between them says nothing about which
+        // is which), every one of them re-added in turn, each looked up afterwards
+        const SIBS: [&str; 8] = ["/v1/*", "/v2/*", "/v3/*", "/v4/*", "/p1", "/p2", "/p3", "/*"];
+        const SIB_URIS: [&str; 8] = ["/v1/x", "/v2/x", "/v3/x", "/v4/x", "/p1", "/p2", "/p3", "/other"];
+        for re in 0..7 {
+            for first in [&[0usize, 1, 2, 3, 4, 5, 6, 7][..], &[3, 2, 1, 0, 6, 5, 4, 7], &[7, 1, 5, 3, 0, 4, 2, 6]] {
+                let mut adds: Vec<String> = first.iter().enumerate().map(|(i, p)| format!("{}:{}", hex(SIBS[*p].as_bytes()), i + 1)).collect();
+                adds.push(format!("{}:{}", hex(SIBS[re].as_bytes()), 99));
+                v.push(format!("c14.ruleset {} {}", list(adds), hex(SIB_URIS[re].as_bytes())));
+            }
+        }
+        for _ in 0..(if ctx.mode == Mode::Quick { 400 } else { 10_000 }) {
+            let k = rng.range(3, 12);
+            let adds = list((0..k).map(|i| format!("{}:{}", hex(rng.pick(&SIBS).as_bytes()), i + 1)));
+            v.push(format!("c14.ruleset {adds} {}", hex(rng.pick(&SIB_URIS).as_bytes())));
         }
         v
     }
